@@ -62,6 +62,9 @@ CHECKS.update({
  "C14": ("exploration","Go race detector over randomised serve/reload/stats/watcher/shutdown stress in child processes, reports read from log files and deduplicated; crash and bounded-progress monitors",
          "Race-detector build, one child process per (backend, repeat): 16 query workers with the cache on, a reloader mixing full, partial (after a real ApplyDiff / file replacement) and failing reloads, a ReportBackendStats ticker, the fsnotify watcher with a ReloadChan consumer, and a shutdown performed while queries are parked after reader acquisition; zero race reports, no panic/fatal, all workers finish.",
          "Only schedules the stress produced are covered (the evidence counts queries that overlapped a reload). librocksdb is uninstrumented: races inside it are invisible. FBDNSDB.ValidateDbKey is a start-up helper and not part of the workload.","4/C14"),
+ "C19": ("exploration","runtime monitors: recording Stats/Logger implementations related to the captured response per query; exact-sum check of concurrent counters under the race detector; three-valued timed oracle on real sliding windows",
+         "(a) per query, counter deltas and logger calls received through the public Stats/Logger interfaces are related to the message actually written (query/type/location/cache/outcome counters; Log exactly once with the written message) over generated and hostile queries on every database layout and backend, cache on and off; (b) 16x1e5 concurrent increments with a concurrent exporter must sum exactly, race build; (c) real sliding windows with a 3 s lifetime (verif constructor) run scripted Add schedules mixing live and expired samples at cleaner ticks, each observation decided only when every sample is unambiguously live or gone by measured timestamps.",
+         "(c) depends on the real clock (the code has no clock seam): ambiguous observations are skipped and counted. Bare SERVFAIL replies are treated as failure replies, not composed responses.","4/C19"),
 })
 BUILT = set(CHECKS)
 ALL = [json.loads(l)["id"] for l in open("properties.jsonl")]
